@@ -1,5 +1,6 @@
 import EinxModel.Proofs.SolveUnroll
 import EinxModel.Proofs.SolveBroadcast
+import EinxModel.Proofs.SolveNum
 /-!
 C07, the shorthands that live at stage 2/3 (`namedtensor/stage2/solve.py`, `stage3/solve.py`):
 "an ellipsis = its written-out repetition; a number = a fresh axis of that length; a scalar size for
@@ -173,5 +174,87 @@ example : (Constraint.broadcast 2 ⟨"b", [], [2]⟩).shape = [2] ∧ (Constrain
         [("a.1", 3), ("b.1", 2), ("a.0", 2), ("b.0", 2), ("#0.1", 6), ("#0.0", 4)] ∧
     solveAll (exScalar (Constraint.broadcast 2 ⟨"b", [], [2]⟩)) = solveAll (exScalar ⟨"b", [], [2]⟩) ∧
     solveAll (exScalar (Constraint.broadcast 3 ⟨"b", [], [2]⟩)) = .rankNone := by decide +kernel
+
+/-! ### (3) A number = a fresh axis of that length -/
+
+/-- Semantic form (no hypothesis on generated names).  `withNumConstraint inp n v` is the long form
+(the name `n` in the expressions, keyword size `n=v`), `numForm inp n v` the short form (the number
+`v` wherever `n` stood).  A semantic solution of the long form is one of the short form as it
+stands; a semantic solution of the short form becomes one of the long form by giving the variables
+of `n` the value `v` (`setName`), provided `n` is fresh at the level of expanded variables
+(`freshVars`), carries no other constraint, and `v ≥ 1`. -/
+theorem number_is_fresh_axis_sem (inp : Input) (n : String) (v : Nat) (ρ σ : Var → Nat) :
+    (SemSat (withNumConstraint inp n v) ρ σ →
+      SemSat (numForm inp n v) ρ σ ∧ semShapes (numForm inp n v) ρ σ = semShapes inp ρ σ) ∧
+    (1 ≤ v → (∀ c ∈ inp.constraints, c.name ≠ n) → freshVars inp ρ n = true → SemSat (numForm inp n v) ρ σ →
+      SemSat (withNumConstraint inp n v) ρ (setName inp ρ n v σ) ∧
+      semShapes inp ρ (setName inp ρ n v σ) = semShapes (numForm inp n v) ρ σ) :=
+  ⟨num_sem_long_short inp n v ρ σ, fun hv hcn hf h =>
+    let r := num_sem_short_long inp n v hv hcn ρ σ hf h
+    ⟨r.1, r.2.2.2⟩⟩
+
+/-- **Number = fresh axis with that size**, on the executable model.  Let `n` carry no constraint of
+`inp`, let all its occurrences stand under the same ellipses (`sameStack`; in particular: one
+occurrence), and `v ≥ 1` (the model admits a numeric axis `0`, a named axis has length ≥ 1; einx
+rejects both).  Then for all counts `ρ`
+* the rank systems of the short and the long form have the same solutions;
+* every solution of the long form yields a solution of the short form with the same lengths of all
+  remaining axes and the same shapes;
+* every solution of the short form yields one of the long form in which `n` has length `v` everywhere
+  and all other axes keep their lengths, same shapes (here `n` must be fresh for the expanded
+  variables, `freshVars`).
+The constructing halves assume `namesOK` of the side they construct. -/
+theorem number_is_fresh_axis (inp : Input) (n : String) (v : Nat) (hv : 1 ≤ v)
+    (hcn : ∀ c ∈ inp.constraints, c.name ≠ n) (hstack : sameStack inp n = true) (ρ : Var → Nat) :
+    (Sat (rankSystem true (numForm inp n v)) ρ ↔ Sat (rankSystem true (withNumConstraint inp n v)) ρ) ∧
+    (∀ σ, Sols (withNumConstraint inp n v) ρ σ → namesOK (numForm inp n v) ρ = true →
+      ∃ σ', Sols (numForm inp n v) ρ σ' ∧ (∀ a ∈ (numForm inp n v).axes ρ, σ' a.2.2 = σ a.2.2) ∧
+        shapesOf (numForm inp n v) ρ σ' = shapesOf (withNumConstraint inp n v) ρ σ) ∧
+    (∀ σ, Sols (numForm inp n v) ρ σ → freshVars inp ρ n = true →
+        namesOK (withNumConstraint inp n v) ρ = true →
+      ∃ σ', Sols (withNumConstraint inp n v) ρ σ' ∧
+        (∀ a ∈ inp.axes ρ, a.1 ≠ n → σ' a.2.2 = σ a.2.2) ∧ (∀ a ∈ inp.axes ρ, a.1 = n → σ' a.2.2 = v) ∧
+        shapesOf (withNumConstraint inp n v) ρ σ' = shapesOf (numForm inp n v) ρ σ) := by
+  have hrank := num_rank inp n v hcn hstack ρ
+  refine ⟨hrank, ?_, ?_⟩
+  · intro σ hs hn
+    obtain ⟨hsem, hsh⟩ := num_sem_long_short inp n v ρ σ (sat_sem _ ρ σ hs.2)
+    obtain ⟨h1, h2, h3⟩ := sem_sat _ ρ σ hn hsem
+    refine ⟨_, ⟨hrank.mpr hs.1, h1⟩, h2, ?_⟩
+    rw [h3, hsh, shapes_of_sat _ ρ σ hs.2]
+    rfl
+  · intro σ hs hf hn
+    obtain ⟨hsem, hv1, hv2, hsh⟩ := num_sem_short_long inp n v hv hcn ρ σ hf (sat_sem _ ρ σ hs.2)
+    obtain ⟨h1, h2, h3⟩ := sem_sat _ ρ _ hn hsem
+    have hax : (withNumConstraint inp n v).axes ρ = inp.axes ρ := rfl
+    rw [hax] at h2
+    refine ⟨_, ⟨hrank.mp hs.1, h1⟩, ?_, ?_, ?_⟩
+    · intro a ha hne; rw [h2 a ha]; exact hv2 a ha hne
+    · intro a ha he; rw [h2 a ha]; exact hv1 a ha he
+    · rw [h3, shapes_of_sat _ ρ σ hs.2, ← hsh]
+      rfl
+
+/-- Non-vacuity: `a (b n)...` against `(2, 6, 9)` with `n=3`, short form `a (b 3)...`: the
+hypotheses hold (`n` occurs once, is fresh, names are hygienic on both sides) and both forms are
+solved to `b = (2, 3)`. -/
+def exNum : Input :=
+  { tensors := [⟨.list [.axis "a", .ellipsis "e0" (.flat (.list [.axis "b", .axis "n"]))], some [2, 6, 9]⟩],
+    constraints := [] }
+
+example : sameStack exNum "n" = true ∧ freshVars exNum (toFun [("e0", 2)]) "n" = true ∧
+    namesOK (numForm exNum "n" 3) (toFun [("e0", 2)]) = true ∧
+    namesOK (withNumConstraint exNum "n" 3) (toFun [("e0", 2)]) = true ∧
+    (numForm exNum "n" 3).tensors.map (·.expr.render) = ["a {(b 3)}..."] := by decide +kernel
+
+example : solveAll (numForm exNum "n" 3) =
+      .unique [("e0", 2)] [("b.1", 3), ("#0/1.1", 9), ("b.0", 2), ("#0/1.0", 6), ("a", 2)] ∧
+    solveAll (withNumConstraint exNum "n" 3) =
+      .unique [("e0", 2)] [("b.1", 3), ("n.1", 3), ("b.0", 2), ("n.0", 3), ("#0/1.1", 9), ("#0/1.0", 6), ("a", 2)] := by
+  decide +kernel
+
+/-- `freshVars` is not vacuous: the name `b.0` next to `b...` is not fresh (its variable is the one
+of the first repetition of `b`). -/
+example : freshVars ⟨[⟨.list [.ellipsis "e0" (.axis "b"), .axis "b.0"], none⟩], []⟩ (toFun [("e0", 2)]) "b.0" = false := by
+  decide +kernel
 
 end Einx.Solve
